@@ -1,5 +1,5 @@
 (* Properties/C13.v — pinned statements for C13 (malformed responses are rejected before any effect is kept). *)
-From Verif Require Import Base OMap Text Proto Bank Exec ExecFacts ExecFacts2 ChkExec.
+From Verif Require Import Base OMap Text Proto Bank Exec ExecFacts ExecFacts2 ChkExec ChkX ExecOracle ExecOracleS ExecOracleH.
 
 (* Rust's str::trim: the result is a contiguous middle part, the removed ends are all whitespace, and
    neither end of the result is whitespace *)
@@ -52,3 +52,27 @@ Example boundary_strings :
   bad_type [32; 97; 32] = true /\ bad_type [233] = false (* one 2-byte character *) /\ bad_type [97; 98] = false /\
   verify_response [([107], [])] [([97; 98], [([107], [])])] = None.
 Proof. vm_compute. repeat split; reflexivity. Qed.
+
+(* ---------- what the correspondence check relies on ---------- *)
+(* The run-time oracle p_c13 (ChkX.v, clauses 5-8: a malformed response fails the call, keeps no write, dispatches nothing; a well-formed one
+   surfaces verbatim) accepts the model's own run of EVERY well-formed scenario, in every case
+   environment: an implementation that behaves exactly like the model is never flagged, and "agrees with the model"
+   implies "satisfies the oracle's reading of C13".
+   Premise [wf_scenario] (ExecOracle.v) is what the generator guarantees (harness/exec_common/src/gen.rs): in every
+   program of every call — sub-messages and reply handlers at every depth — the first action writes the marker
+   "m<node>" and no other action writes or removes the marker of any node; the markers of all the nodes of the
+   scenario are pairwise different.  [model_steps] builds the step records from the model's own run (only the block and
+   the call of each input step are used). *)
+Theorem C13_model_ok ce steps : wf_scenario steps -> c13 ce (model_steps ce steps empty_chain) = Agree.
+Proof. exact (c13_model_ok ce steps). Qed.
+Print Assumptions C13_model_ok.
+
+Example C13_model_ok_applies : wf_scenario ex_scenario /\ c13 ex_ce (model_steps ex_ce ex_scenario empty_chain) = Agree.
+Proof. exact (conj ex_scenario_wf (C13_model_ok ex_ce ex_scenario ex_scenario_wf)). Qed.
+
+(* conversely, an Agree verdict of the check means: the oracle accepted every step of what the IMPLEMENTATION did, and
+   trace, outcome and state agreed with the model at every step *)
+Theorem C13_agree_sound ce steps : c13 ce steps = Agree ->
+  oracle_steps p_c13 steps 0 = None /\ corr ce steps empty_chain 0 = None.
+Proof. exact (check_with_agree_sound p_c13 ce steps). Qed.
+Print Assumptions C13_agree_sound.
